@@ -751,3 +751,11 @@ def r35(text):
         text = text[:rs] + rep + text[e:]
         n += 1
     return text, n
+
+
+@rule("T_node", "Type-level (dir.rs Node): `std::fs::File` / `std::fs::Metadata` fields -> opaque `FileStub` / `MetaStub` "
+                "(the encoding methods never look at them); fields made `pub`.")
+def t_node(text):
+    t, n = _subn([(r"\bstd::fs::File\b", "FileStub"), (r"\bstd::fs::Metadata\b", "MetaStub")], text)
+    t, n2 = re.subn(r"(?m)^(\s+)(?!pub\b)(\w+\s*:)", r"\1pub \2", t)
+    return t, n + n2
